@@ -4,7 +4,7 @@
    loadable v = the complete file delivers v as a flow (well-formed, within the stack budget, a
    dict, accepted by from_state). OS-level durability of flush() is not modelled. *)
 From Coq Require Import List Bool Arith NArith ZArith.
-From MV Require Import Base.Bytes Model.Tnet Proofs.TnetBase Proofs.TnetRoundtrip Proofs.TnetReader Proofs.TnetTrunc Proofs.TnetExamples.
+From MV Require Import Base.Bytes Model.Tnet Proofs.TnetBase Proofs.TnetRoundtrip Proofs.TnetReader Proofs.TnetTrunc Proofs.TnetExamples Model.SaveStream Proofs.SaveStream.
 Import ListNotations.
 
 (* Every truncation: reading the first k bytes of the file yields exactly the records completely
@@ -61,3 +61,42 @@ Theorem C37_nonvacuous :
        (firstn (length (dumps sample)) (file_of [sample; sample2])) = ([mirror sample], Clean).
 Proof. exact truncation_example. Qed.
 Print Assumptions C37_nonvacuous.
+
+(* ---- stream saving under option changes (Model/SaveStream.v: Save.configure / maybe_rotate_to_new_file
+   / save_flow / done and the optmanager rollback). For EVERY sequence of save_stream_file changes
+   (to openable and unopenable paths, append or overwrite, switching off) interleaved with finished
+   flows, the addon never exits and every file holds exactly what [reference] says: the flows finished
+   while it was the target, since its last successful open (overwrite) or on top of what it held
+   (append); a rejected change contributes nothing. *)
+Theorem C37_stream_files_complete : forall openable f evs,
+  crashed (run openable (init_state f) evs) = false
+  /\ forall q, fs (run openable (init_state f) evs) q = reference openable evs None f q.
+Proof. exact stream_files_complete. Qed.
+Print Assumptions C37_stream_files_complete.
+
+(* in every reachable state, a change whose target cannot be opened raises and leaves files, writer,
+   current_path and option exactly as they were (the rollback re-configure does not re-open) *)
+Theorem C37_failed_option_change_is_noop : forall openable f evs o,
+  let s := run openable (init_state f) evs in
+  configure openable (with_opt s o) = None -> set_option openable o s = (s, true).
+Proof. exact reachable_failed_change_is_noop. Qed.
+Print Assumptions C37_failed_option_change_is_noop.
+
+(* in every reachable state, a finished flow is appended to the current stream file and nothing else changes *)
+Theorem C37_finish_appends_only : forall openable f evs r,
+  let s := run openable (init_state f) evs in
+  save_flow openable r s =
+    match strm s with
+    | Some p => {| opt := opt s; cur := cur s; strm := strm s; fs := upd (fs s) p (fs s p ++ [r]); crashed := false |}
+    | None => s
+    end.
+Proof. exact reachable_save_flow_appends. Qed.
+Print Assumptions C37_finish_appends_only.
+
+Theorem C37_reconf_nonvacuous :
+  let s := run ex_open (init_state (fun _ => [])) ex_events in
+  fs s 0 = [1; 2; 4]%nat /\ fs s 3 = [] /\ strm s = Some 0%nat
+  /\ snd (step ex_open (run ex_open (init_state (fun _ => [])) (firstn 3 ex_events))
+                (SetOpt (Some {| sp_append := false; sp_path := 3 |}))) = true.
+Proof. exact ex_run. Qed.
+Print Assumptions C37_reconf_nonvacuous.
